@@ -4,9 +4,12 @@
 package c04
 
 import (
+	"bufio"
 	"bytes"
 	"fmt"
+	"io"
 	"sort"
+	"testing/iotest"
 
 	"github.com/Tom-Johnston/mamba/graph"
 	"github.com/Tom-Johnston/mamba/graph/search"
@@ -30,7 +33,7 @@ func init() {
 		Run:            run,
 		MinEvaluations: map[string]int{"quick": 300000, "thorough": 20000000},
 		MinNontrivial:  map[string]int{"quick": 3000, "thorough": 30000},
-		RequiredObs:    []string{"save_points_in_orders>=10(prefix of the output)", "failed_save_attempts", "saves_on_same_iterator", "save_points", "save_points_after_exhaustion", "save_points_before_first", "chains", "interleaved_steps", "configs_with_predicate"},
+		RequiredObs:    []string{"load_through_reader_kind_1", "load_through_reader_kind_2", "load_through_reader_kind_3", "load_through_reader_kind_4", "load_through_reader_kind_5", "load_through_reader_kind_6", "save_points_in_orders>=10(prefix of the output)", "failed_save_attempts", "saves_on_same_iterator", "save_points", "save_points_after_exhaustion", "save_points_before_first", "chains", "interleaved_steps", "configs_with_predicate"},
 	})
 }
 
@@ -165,9 +168,28 @@ func (m *mon) saveLoad(it *search.GraphIterator, k int) (*search.GraphIterator, 
 		return nil, false
 	}
 	data := append([]byte(nil), buf.Bytes()...)
+	// the checkpoint reaches Load through every kind of io.Reader: all at once, one byte per Read, half of what is
+	// asked for, the last bytes together with io.EOF, through a small bufio.Reader, and with trailing data behind it
+	kind := k % 7
+	var rd io.Reader = bytes.NewReader(data)
+	switch kind {
+	case 1:
+		rd = iotest.OneByteReader(rd)
+	case 2:
+		rd = iotest.HalfReader(rd)
+	case 3:
+		rd = iotest.DataErrReader(rd)
+	case 4:
+		rd = iotest.DataErrReader(iotest.OneByteReader(rd))
+	case 5:
+		rd = bufio.NewReaderSize(rd, 16)
+	case 6:
+		rd = bytes.NewReader(append(append([]byte(nil), data...), "trailing bytes that belong to the caller"...))
+	}
+	m.c.Obs(fmt.Sprintf("load_through_reader_kind_%d", kind), 1)
 	if pi := m.c.CallN(key, int64(k), func() {
 		pre, pru := m.cf.funcs()
-		lo = search.Load(bytes.NewReader(data), pre, pru)
+		lo = search.Load(rd, pre, pru)
 	}); pi != nil {
 		m.viol("panic@"+engine.SiteNoLine(pi.Site)+"|Load", k, map[string]interface{}{"saved_bytes": len(data)}, pi.String(), "Load returns an iterator")
 		return nil, false
